@@ -10,6 +10,7 @@ import Verif.Model.Revocation
           renewal the decimal serial of the certificate; fault = n | b | a;   E = `s<thread>` | `r0`
       output: one answer per request joined by `,` (ok already err revoked rerr other allowed drop pend bad),
           then ` x=[<key>=<tag>,…] s=[…]` — both revoked tables sorted by key
+  `lh reqs=… evs=…`   the same for a linked CA (`lmachine`): the tables printed are the linked CA service's
   `a key=x<hex> reqs=<R>;…`   a sequential history on one certificate: R = `v:<signer o|a|k|x>:<reason|->:<tag>` (ACME revoke-cert signed by
       the owning account / another account / the certificate key / another key) | `m:<tag>` (revocation over mTLS) | `n` (renew or rekey);
       output: answers (ok already unauthorized badreason err revoked allowed) joined by `,` then ` x=[…]`
@@ -85,6 +86,11 @@ def eval (line : String) : Option String := do
     let rs ← list? ";" req? (← lookup kv "reqs")
     let evs ← list? "," ev? (← lookup kv "evs")
     let s := machine.run ({ x509 := [], ssh := [] }, rs) evs
+    pure (String.intercalate "," (s.2.map (outS ·.out)) ++ " x=" ++ tableS s.1.x509 ++ " s=" ++ tableS s.1.ssh)
+  | some "lh" =>
+    let rs ← list? ";" req? (← lookup kv "reqs")
+    let evs ← list? "," ev? (← lookup kv "evs")
+    let s := lmachine.run ({ x509 := [], ssh := [] }, rs) evs
     pure (String.intercalate "," (s.2.map (outS ·.out)) ++ " x=" ++ tableS s.1.x509 ++ " s=" ++ tableS s.1.ssh)
   | some "v" =>
     match canonSerial (← str? (← lookup kv "s")) with
